@@ -3,11 +3,12 @@
     the OCaml types); nat, positive, N, Z stay the extracted inductives.
     No Extract Constant. *)
 From Coq Require Import ExtrOcamlBasic.
-From PP Require Import Doc Normalize Layout Render Config EntryPoints Consts Dispatch PyStr PyLit PyVal Printers Pformat.
+From PP Require Import Doc Normalize Layout Render Config EntryPoints Consts Dispatch PyStr PyLit PyVal Printers Pformat PyExpr.
 
 Extraction "pp.ml"
   Z.add Z.mul Z.sub Z.opp Z.div_eucl Z.of_nat Z.to_nat Z.of_N N.of_nat Z.compare
   normalize_doc best_layout default_render plain
   run_cfg entry_points set_default_plumbing
   drun dinit
-  pformat_model sdocs_model str_to_lines escape_for_quote quote_strategy commentdoc literal_value.
+  pformat_model sdocs_model str_to_lines escape_for_quote quote_strategy commentdoc literal_value
+  etoks expr_of.
